@@ -107,6 +107,24 @@ func mapsSame(a, b map[string]any) string {
 	return ""
 }
 
+// mapsSameOrDeep: like mapsSame, but a value that is a deep copy of the expected one is accepted
+// too (a GetAll that isolates snapshots at every depth is at least as good as a shallow copy).
+func mapsSameOrDeep(a, b map[string]any) string {
+	if len(a) != len(b) {
+		return fmt.Sprintf("sizes differ: %d vs %d", len(a), len(b))
+	}
+	for k, v := range a {
+		w, okk := b[k]
+		if !okk {
+			return fmt.Sprintf("key %q missing", k)
+		}
+		if !sameValue(v, w) && !deepEq(v, w) {
+			return fmt.Sprintf("key %q: %#v vs %#v", k, v, w)
+		}
+	}
+	return ""
+}
+
 func copyMap(m map[string]any) map[string]any {
 	out := make(map[string]any, len(m))
 	for k, v := range m {
@@ -139,7 +157,7 @@ func storeAgrees(s *flyt.SharedStore, model map[string]any, universe []string) s
 		return fmt.Sprintf("Keys()=%q, model keys %q", ks, want)
 	}
 	all := s.GetAll()
-	if m := mapsSame(all, model); m != "" {
+	if m := mapsSameOrDeep(all, model); m != "" {
 		return "GetAll() vs model: " + m
 	}
 	for _, k := range universe {
